@@ -8,6 +8,7 @@ package c19
 
 import (
 	"fmt"
+	"sync/atomic"
 	"math/big"
 	"strings"
 	"testing"
@@ -22,6 +23,9 @@ import (
 )
 
 const workers = 8
+
+// hangState: 0 no predicted hang re-run yet, 3 re-run in progress, 1 confirmed, 2 refuted
+var hangState atomic.Int32
 
 func TestC19(t *testing.T) {
 	r := vcore.Start(t, "C19")
@@ -95,7 +99,7 @@ func checkRegistry(r *vcore.Run) {
 
 func genTopologies(r *vcore.Run) []*topo {
 	n := r.Pick(40, 260)
-	sizes := []int{2, 4, 8, 2, 16, 4, 1, 8, 32, 4, 2, 64, 8, 16, 4, 2, 1, 32, 8, 4}
+	sizes := []int{2, 4, 8, 2, 16, 4, 1, 8, 2, 4, 32, 2, 8, 4, 64, 2, 4, 8, 16, 4}
 	var out []*topo
 	for i := 0; i < n; i++ {
 		rng := r.Rand(fmt.Sprintf("topo/%d", i))
@@ -224,6 +228,36 @@ func runTopoOnCurve(r *vcore.Run, t *topo, k *curveKit) {
 			r.SampleClass("observed/import-slice-reordered", map[string]any{"topology": t.String(), "note": "the slice passed to gkr.API.Import was permuted in place by gkr.API.Solve"})
 		}
 
+		if info, ok := k.info(ccsB); ok {
+			if hangs, detail := hangProbe(info); hangs {
+				t.skip.Store(true)
+				r.Eval(key+"/hang", true)
+				r.Count("hang.predicted-by-probe", 1)
+				vals := genValues(r.Rand("hang/"+key), k.mod, len(cA.Vals), "small")
+				note := "not re-run in a child process (confirmed earlier in this run)"
+				switch hangState.Load() {
+				case 0:
+					if hangState.CompareAndSwap(0, 3) {
+						confirmed, n := confirmHang(r, t, k, b, vals)
+						note = n
+						if confirmed {
+							r.Count("hang.confirmed-in-child-process", 1)
+							hangState.Store(1)
+						} else {
+							r.Count("hang.not-confirmed-in-child-process", 1)
+							hangState.Store(2)
+						}
+					}
+				}
+				if hangState.Load() == 2 {
+					r.Inconclusive("probe predicted a non-returning Solve, child process did not confirm: " + note)
+				} else {
+					r.Violation("solver/gkr-solving-hint-does-not-terminate", detail+"; "+note, replayOf(t, k, b, vals, map[string]any{"probe": detail}))
+				}
+				continue
+			}
+		}
+
 		nSets := r.Pick(2, 3)
 		var firstVals []*big.Int
 		for vi := 0; vi < nSets; vi++ {
@@ -254,7 +288,12 @@ func runTopoOnCurve(r *vcore.Run, t *topo, k *curveKit) {
 				rng := r.Rand(fmt.Sprintf("advvals/%s/%s/%d", t.Name, k.name, vi))
 				vals = genValues(rng, k.mod, len(cA.Vals), "mixed")
 			}
+			big := ccsB.GetNbConstraints() > 40000
 			for li := range lies {
+				if big && li != 0 && (li+len(t.Wires))%3 != 0 {
+					r.Count("adv.lies-not-run-on-large-system", 1)
+					continue
+				}
 				advCase(r, t, k, b, fmt.Sprintf("%s/a%d", key, vi), priv, info, lay, okLay, cB, vals, &lies[li])
 			}
 		}
@@ -277,6 +316,9 @@ func honestCase(r *vcore.Run, t *topo, k *curveKit, b, key, mode string, ccsA, c
 		return
 	}
 	errB, panB := solve(ccsB, wB)
+	if watchdogged(r, errB) {
+		return
+	}
 	tapB := takeTap(nonceB)
 	tapOK := false
 	switch {
@@ -311,6 +353,9 @@ func honestCase(r *vcore.Run, t *topo, k *curveKit, b, key, mode string, ccsA, c
 	nonceA := newNonce()
 	wA, _ := frontend.NewWitness(c.assignment(nonceA, vals), k.mod)
 	errA, panA := solve(ccsA, wA)
+	if watchdogged(r, errA) {
+		return
+	}
 	tapA := takeTap(nonceA)
 	switch {
 	case errA == nil:
@@ -348,6 +393,9 @@ func advCase(r *vcore.Run, t *topo, k *curveKit, b, key string, priv constraint.
 		return
 	}
 	err, pan := solve(priv, w, opts...)
+	if watchdogged(r, err) {
+		return
+	}
 	takeTap(nonce)
 	tr := get()
 	r.Count("adv.hint-calls-intercepted", tr.SolveCalls+tr.ProveCalls)
